@@ -10,7 +10,7 @@
    with gunzip (gz ws) = Some (concat ws) (a premise, not an axiom).  [wb s]: the handler sets
    headers, then calls WriteHeader at most once before its first Write/Flush, then only writes
    and flushes (any number, any chunking, any payload). *)
-Require Import V.Lib V.GoPath V.C18_Model V.C18_Proofs.
+Require Import V.Lib V.GoPath V.Gen_C18 V.C18_Model V.C18_Proofs.
 Open Scope N_scope.
 Local Open Scope string_scope.
 
@@ -48,23 +48,8 @@ Theorem C18_client_decodes_identity_body :
 Proof. intros gz gunzip Hrt sl dexts. exact (client_view sl dexts gz gunzip Hrt). Qed.
 Print Assumptions C18_client_decodes_identity_body.
 
-(* The unrestricted statement is false of the code, in two independent ways. *)
-(* (a) codings outside the skip list: a zstd-encoded response (the file server emits those) is
-   gzipped again and relabelled "gzip" — no client can recover the content from the header *)
-Theorem C18_gzip_transparent_refuted :
-  exists cfgs path ae s,
-  wb s = true /\ (exists c, r_ce (run_plain s) = [c] /\ In c (map fst priority_snapshot)) /\
-  forall gz gunzip,
-  ~ transparent gz gunzip false (gzip_serve skip_snapshot [[]; bs ".txt"] false cfgs path ae s) (run_plain s).
-Proof.
-  exists [bare], (bs "/x"), (bs "zstd, gzip"), [OSet K_CE (bs "zstd"); OWrite [1; 2; 3]].
-  split; [reflexivity|]. split.
-  - exists (bs "zstd"). split; [reflexivity | left; reflexivity].
-  - exact zstd_not_transparent.
-Qed.
-Print Assumptions C18_gzip_transparent_refuted.
-
-(* (b) handlers that are not well-behaved: a Flush before the header is written commits the
+(* The statement without the restriction to well-behaved handlers is false of the code. *)
+(* (a) handlers that are not well-behaved: a Flush before the header is written commits the
    headers without Content-Encoding, the body is compressed all the same *)
 Theorem C18_flush_before_header_refuted :
   exists cfgs path ae s,
@@ -74,7 +59,7 @@ Theorem C18_flush_before_header_refuted :
 Proof. exists [bare], (bs "/x"), (bs "gzip"), [OFlush; OWrite [1; 2; 3]]. exact flush_first_witness. Qed.
 Print Assumptions C18_flush_before_header_refuted.
 
-(* (c) a second WriteHeader re-runs the response filters, which now see "Content-Encoding: gzip"
+(* (b) a second WriteHeader re-runs the response filters, which now see "Content-Encoding: gzip"
    and switch compression off: plain bytes (plus an empty gzip stream) under a gzip label *)
 Theorem C18_repeated_writeheader_refuted :
   exists cfgs path ae s,
@@ -105,18 +90,19 @@ Theorem C18_not_double_encoded_partial :
 Proof. exact not_double_encoded. Qed.
 Print Assumptions C18_not_double_encoded_partial.
 
-(* full statement (every coding the file server can emit) fails for zstd with the tables of the
-   snapshot: skip list gzip/compress/deflate/br, sibling priority zstd/br/gzip *)
-Theorem C18_not_double_encoded_refuted :
-  exists cfgs path ae s c,
-  wb s = true /\ r_ce (run_plain s) = [c] /\ In c (map fst priority_snapshot) /\
-  applied (gzip_serve skip_snapshot [[]; bs ".txt"] false cfgs path ae s) = [GZIP] /\
-  r_ce (gzip_serve skip_snapshot [[]; bs ".txt"] false cfgs path ae s) = [GZIP].
-Proof.
-  exists [bare], (bs "/x"), (bs "zstd, gzip"), [OSet K_CE (bs "zstd"); OWrite [1; 2; 3]], (bs "zstd").
-  exact zstd_double_encoded_witness.
-Qed.
-Print Assumptions C18_not_double_encoded_refuted.
+(* every coding the file server can emit (sibling priority list of the current sources) is left
+   alone by the skip list of the current sources: zstd included *)
+Theorem C18_not_double_encoded_fileserver_codings :
+  forall dexts cs cfgs path ae s c,
+  wb s = true -> r_ce (run_plain s) = [c] -> In c (map fst gen_c18_static_priority) ->
+  gzip_serve gen_c18_skip dexts cs cfgs path ae s = run_plain s.
+Proof. exact not_double_encoded_fileserver_codings. Qed.
+Print Assumptions C18_not_double_encoded_fileserver_codings.
+
+Example C18_not_double_encoded_fileserver_codings_nonvacuous :
+  let s := [OSet K_CE (bs "zstd"); OWrite [1; 2; 3]] in
+  wb s = true /\ r_ce (run_plain s) = [bs "zstd"] /\ In (bs "zstd") (map fst gen_c18_static_priority).
+Proof. vm_compute. repeat split; auto. Qed.
 
 (* precompressed siblings: the file server picks the first coding of its priority list that the
    client listed verbatim and whose sibling exists ... *)
@@ -138,29 +124,22 @@ Theorem C18_static_no_sibling_when_none_eligible :
 Proof. exact select_sibling_none. Qed.
 Print Assumptions C18_static_no_sibling_when_none_eligible.
 
-(* ... and a sibling in a coding of the skip list goes out exactly as without gzip *)
-Theorem C18_static_sibling_not_reencoded_partial :
-  forall sl dexts prio cs cfgs path ae head data sibs name ext,
-  select_sibling prio ae (fun e => match sib_data sibs e with Some _ => true | None => false end) = Some (name, ext) ->
-  In name sl ->
-  gzip_serve sl dexts cs cfgs path ae (static_script prio head ae data sibs) =
-  run_plain (static_script prio head ae data sibs).
-Proof. exact static_sibling_not_reencoded. Qed.
-Print Assumptions C18_static_sibling_not_reencoded_partial.
+(* ... and whichever sibling it picks goes out exactly as without gzip (tables of the current
+   sources: every coding of the priority list is on the skip list) *)
+Theorem C18_static_sibling_not_reencoded :
+  forall dexts cs cfgs path ae head data sibs name ext,
+  select_sibling gen_c18_static_priority ae
+    (fun e => match sib_data sibs e with Some _ => true | None => false end) = Some (name, ext) ->
+  gzip_serve gen_c18_skip dexts cs cfgs path ae (static_script gen_c18_static_priority head ae data sibs) =
+  run_plain (static_script gen_c18_static_priority head ae data sibs).
+Proof. exact static_sibling_not_reencoded_full. Qed.
+Print Assumptions C18_static_sibling_not_reencoded.
 
-Theorem C18_static_sibling_not_reencoded_refuted :
-  exists cfgs path ae data sibs,
-  let s := static_script priority_snapshot false ae data sibs in
-  select_sibling priority_snapshot ae (fun e => match sib_data sibs e with Some _ => true | None => false end)
-    = Some (bs "zstd", bs ".zst") /\
-  r_ce (run_plain s) = [bs "zstd"] /\
-  applied (gzip_serve skip_snapshot [[]; bs ".txt"] false cfgs path ae s) = [GZIP] /\
-  r_ce (gzip_serve skip_snapshot [[]; bs ".txt"] false cfgs path ae s) = [GZIP].
-Proof.
-  exists [bare], (bs "/f.txt"), (bs "zstd, gzip"), [100; 97; 116; 97], [(bs ".zst", [40; 181; 47; 253])].
-  exact static_zstd_witness.
-Qed.
-Print Assumptions C18_static_sibling_not_reencoded_refuted.
+Example C18_static_sibling_not_reencoded_nonvacuous :
+  select_sibling gen_c18_static_priority (bs "zstd, gzip")
+    (fun e => match sib_data [(bs ".zst", [40; 181; 47; 253])] e with Some _ => true | None => false end)
+  = Some (bs "zstd", bs ".zst").
+Proof. vm_compute. reflexivity. Qed.
 
 (* a file without eligible sibling: the client decodes the file's bytes, whatever gzip decides *)
 Theorem C18_static_plain_file_transparent :
